@@ -29,7 +29,7 @@ Theorem Whole_xls_file_main :
   forall (fdiv100 : N -> N) (decode16 : list N -> list N) (show_f64 : N -> list N)
          (wb : lwb) (ch : xchoice) (fuel : nat),
   xfile_legal fdiv100 decode16 wb ch -> (Cfb.fuel_for (xc_layout ch) <= fuel)%nat ->
-  xls_open_model fdiv100 decode16 show_f64 fuel (xls_file_write wb ch) = Ok (spec_result wb ch).
+  xls_open_model fdiv100 decode16 show_f64 fuel (xls_file_write wb ch) = Ok (spec_result show_f64 wb ch).
 Proof. exact xls_file_main. Qed.
 
 (* the same, reduced to "sheet names in order, each with the range of its cells" *)
@@ -46,7 +46,7 @@ Theorem Whole_xls_stream_main :
   forall (fdiv100 : N -> N) (decode16 : list N -> list N) (show_f64 : N -> list N)
          (wb : lwb) (ch : xchoice),
   xfile_legal fdiv100 decode16 wb ch ->
-  xls_stream_model fdiv100 decode16 show_f64 (xls_stream_write wb ch) = Ok (spec_result wb ch).
+  xls_stream_model fdiv100 decode16 show_f64 (xls_stream_write wb ch) = Ok (spec_result show_f64 wb ch).
 Proof. exact xls_stream_main. Qed.
 
 (* the glue, stated on its own: the globals loop returns every sheet WITH the offset of its
@@ -59,7 +59,7 @@ Theorem Whole_xls_globals_env :
   gi_formats (all_junk ch) = NumFmt.customs (lw_styles wb) ->
   exists st,
     Meta.xls_globals (BiffSst.records (xls_stream_write wb ch)) Meta.xls_state0 = Ok st /\
-    Meta.xls_resolve show_f64 st = Ok (Meta.spec_names_xls (meta_choice true ch []) (meta_wb wb)) /\
+    Meta.xls_resolve show_f64 st = Ok (Meta.spec_names_xls show_f64 (meta_choice true ch []) (meta_wb wb)) /\
     Meta.xg_sheets st = combine (map sc_pos (xc_sheets ch)) (map ls_meta (lw_sheets wb)) /\
     Meta.xg_1904 st = lw_1904 wb /\
     globals_env (BiffSst.records (xls_stream_write wb ch)) (lw_1904 wb) = env_of wb.
@@ -108,8 +108,8 @@ Example Whole_xls_nonvacuous : forall fdiv100 : N -> N,
   map sc_pos (xc_sheets ex_ch) = [198; 336] /\
   length (xls_file_write ex_wb ex_ch) = 2560%nat /\
   xls_open_model fdiv100 BiffRec_proofs.id_decode (fun _ => []) 1 (xls_file_write ex_wb ex_ch) =
-    Ok (spec_result ex_wb ex_ch) /\
-  wr_names (spec_result ex_wb ex_ch) = [([110], [128512; 33; 66; 36; 49])].
+    Ok (spec_result (fun _ => []) ex_wb ex_ch) /\
+  wr_names (spec_result (fun _ => []) ex_wb ex_ch) = [([110], [128512; 33; 66; 36; 49])].
 Proof. exact example_whole. Qed.
 
 (* the same workbook with a CodePage record (0x0042) among the globals: XlsFile.gitem_ok /
@@ -123,14 +123,14 @@ Example Whole_xls_codepage_nonvacuous : forall fdiv100 : N -> N,
             xfile_legal fdiv100 BiffRec_proofs.id_decode ex_wb (XlsFileCodePage_proofs.cp_choice cp) /\
             xls_open_model fdiv100 BiffRec_proofs.id_decode (fun _ => []) 1
                            (xls_file_write ex_wb (XlsFileCodePage_proofs.cp_choice cp)) =
-            Ok (spec_result ex_wb (XlsFileCodePage_proofs.cp_choice cp)) /\
-            spec_result ex_wb (XlsFileCodePage_proofs.cp_choice cp) = spec_result ex_wb ex_ch)
+            Ok (spec_result (fun _ => []) ex_wb (XlsFileCodePage_proofs.cp_choice cp)) /\
+            spec_result (fun _ => []) ex_wb (XlsFileCodePage_proofs.cp_choice cp) = spec_result (fun _ => []) ex_wb ex_ch)
          [1252; 932; 1200; 65001; 54321] /\
   xfile_legal fdiv100 BiffRec_proofs.id_decode ex_wb XlsFileCodePage_proofs.cp_choice_two /\
   xls_open_model fdiv100 BiffRec_proofs.id_decode (fun _ => []) 1
                  (xls_file_write ex_wb XlsFileCodePage_proofs.cp_choice_two) =
-  Ok (spec_result ex_wb XlsFileCodePage_proofs.cp_choice_two) /\
-  spec_result ex_wb XlsFileCodePage_proofs.cp_choice_two = spec_result ex_wb ex_ch /\
+  Ok (spec_result (fun _ => []) ex_wb XlsFileCodePage_proofs.cp_choice_two) /\
+  spec_result (fun _ => []) ex_wb XlsFileCodePage_proofs.cp_choice_two = spec_result (fun _ => []) ex_wb ex_ch /\
   firstn 12 (skipn 20 (xls_stream_write ex_wb (XlsFileCodePage_proofs.cp_choice 1252))) =
     [225; 0; 2; 0; 176; 4; 66; 0; 2; 0; 228; 4].
 Proof. exact XlsFileCodePage_proofs.example_whole_codepage. Qed.
@@ -159,7 +159,7 @@ Theorem Whole_xlsb_package_partial :
                               (Meta.xlsb_workbook_bin c wb)
                               (Some (XlsbRec.encode_sst total items trailer)) pk =
   Ok (XlsbFile.mkXbRes (Meta.wb_sheets wb)
-        (Meta.spec_names_xlsb show_f64 (Meta.spec_ext (map Meta.m_name (Meta.wb_sheets wb)) (Meta.bc_xtis c)) []
+        (Meta.spec_names_xlsb show_f64 (Meta.spec_ext (map Meta.m_name (Meta.wb_sheets wb)) (Meta.bc_xtis c))
                               (Meta.wb_names wb))
         (Meta.wb_1904 wb)
         (map (fun x : (Meta.str * Meta.str) * (XlsbRec.layout * list XlsbRec.cellr) =>
@@ -183,7 +183,7 @@ Check Whole_xls_file_main :
   forall (fdiv100 : N -> N) (decode16 : list N -> list N) (show_f64 : N -> list N)
          (wb : lwb) (ch : xchoice) (fuel : nat),
   xfile_legal fdiv100 decode16 wb ch -> (Cfb.fuel_for (xc_layout ch) <= fuel)%nat ->
-  xls_open_model fdiv100 decode16 show_f64 fuel (xls_file_write wb ch) = Ok (spec_result wb ch).
+  xls_open_model fdiv100 decode16 show_f64 fuel (xls_file_write wb ch) = Ok (spec_result show_f64 wb ch).
 Check Whole_xls_file_ranges :
   forall (fdiv100 : N -> N) (decode16 : list N -> list N) (show_f64 : N -> list N)
          (wb : lwb) (ch : xchoice) (fuel : nat),
